@@ -991,6 +991,8 @@ impl LowerHex for Number {
     fn fmt(&self, f: &mut Formatter<'_>) -> fmt::Result {
         match self {
             Number::Fixnum(num) => fmt::LowerHex::fmt(&BigInt::from(*num), f),
+            // an infinity or a NaN has no digits in any radix: print it as in radix 10
+            Number::Float(num) if !num.is_finite() => fmt::Display::fmt(self, f),
             Number::Float(num) => {
                 if *num < 0_f64 {
                     write!(f, "-")?;
@@ -1008,6 +1010,8 @@ impl Octal for Number {
     fn fmt(&self, f: &mut Formatter<'_>) -> fmt::Result {
         match self {
             Number::Fixnum(num) => fmt::Octal::fmt(&BigInt::from(*num), f),
+            // an infinity or a NaN has no digits in any radix: print it as in radix 10
+            Number::Float(num) if !num.is_finite() => fmt::Display::fmt(self, f),
             Number::Float(num) => {
                 if *num < 0_f64 {
                     write!(f, "-")?;
@@ -1025,6 +1029,8 @@ impl Binary for Number {
     fn fmt(&self, f: &mut Formatter<'_>) -> fmt::Result {
         match self {
             Number::Fixnum(num) => fmt::Binary::fmt(&BigInt::from(*num), f),
+            // an infinity or a NaN has no digits in any radix: print it as in radix 10
+            Number::Float(num) if !num.is_finite() => fmt::Display::fmt(self, f),
             Number::Float(num) => {
                 if *num < 0_f64 {
                     write!(f, "-")?;
